@@ -112,17 +112,37 @@ Definition closedb (c : circuit) (s : list label) : bool :=
                     | None => false
                     end) s.
 
-(* the gates below the leaves are closed under operands and untouched *)
-Definition frame_below (old new : circuit) (leaves : list label) : bool :=
-  let s := closure (closure_fuel old leaves) old leaves [] in
-  forallb (fun l => memb l s) leaves
-  && closedb old s
-  && forallb (fun l => negb (memb l (changed old new))) s.
+(* order lists gates of c operands-first: every listed label is new, has a gate, and all its
+   operands were listed before (an explicit certificate that this part of c is acyclic) *)
+Fixpoint ordered_okb (c : circuit) (seen order : list label) : bool :=
+  match order with
+  | [] => true
+  | l :: rest =>
+    negb (memb l seen)
+    && match dget (gates c) l with
+       | Some g => forallb (fun o => memb o seen) (gops g)
+       | None => false
+       end
+    && ordered_okb c (l :: seen) rest
+  end.
 
-(* no untouched gate reads a replaced internal gate *)
+(* the circuit after the step is acyclic: top_sort (unverified here) proposes an order, the
+   order is checked and must list every gate *)
+Definition frame_order (new : circuit) : bool :=
+  match top_sort true new with
+  | Ok order => ordered_okb new [] order && forallb (fun k => memb k order) (dkeys (gates new))
+  | Err _ => false
+  end.
+
+(* the leaves survive and are not cone outputs *)
+Definition frame_leaves (old new : circuit) (leaves outs : list label) : bool :=
+  forallb (fun l => negb (memb l (replaced_internal old new outs)) && negb (memb l outs)) leaves.
+
+(* no untouched gate (other than the cone outputs, which the cone check covers) reads a
+   replaced internal gate *)
 Definition frame_users (old new : circuit) (outs : list label) : bool :=
   forallb (fun kg : label * gate =>
-             memb (fst kg) (changed old new)
+             memb (fst kg) (changed old new) || memb (fst kg) outs
              || forallb (fun o => negb (memb o (replaced_internal old new outs))) (gops (snd kg)))
           (gates old).
 
@@ -137,11 +157,33 @@ Definition frame_scope (old new : circuit) (leaves outs : list label) : bool :=
              (replaced_internal old new outs).
 
 Definition check_frame (old new : circuit) (leaves outs : list label) : bool :=
-  frame_below old new leaves && frame_users old new outs && frame_scope old new leaves outs.
+  frame_order new && frame_leaves old new leaves outs && frame_users old new outs
+  && frame_scope old new leaves outs.
 
 Definition check_subst (old new : circuit) (leaves outs : list label)
            (care : option (list (list bool))) : bool :=
   check_frame old new leaves outs && check_step old new leaves outs care.
+
+(* ---- the "all outputs trivial" branch: a cone output o whose pattern equals that of the
+   leaf l is merged into l (users of o read l instead, o is removed).  No call of
+   replace_subcircuit is involved; the step is validated on the states before / after:
+   the gates of new are those of old (except o) with o replaced by l among the operands,
+   new is acyclic, and in old the cone value of o is the value of the leaf l on every
+   compared vector. ---- *)
+Definition merge_gate (o l : label) (g : gate) : gate :=
+  mkGate (gtyp g) (subst_label o l (gops g)).
+
+Definition check_merge (old new : circuit) (leaves : list label) (o l : label)
+           (care : option (list (list bool))) : bool :=
+  negb (leqb o l) && memb l leaves
+  && labels_eqb (inputs old) (inputs new)
+  && labels_eqb (outputs new) (subst_label o l (outputs old))
+  && forallb (fun kg : label * gate =>
+                leqb (fst kg) o
+                || gate_opt_eqb (dget (gates new) (fst kg)) (Some (merge_gate o l (snd kg))))
+             (gates old)
+  && frame_order new
+  && check_step_map old old (map dup leaves) [(o, l)] care.
 
 (* ---- what the harness evaluates for a recorded call of Circuit.replace_subcircuit ----
    before/after: dumped states; sub, imap, omap, fresh: the arguments and the uuid used.
